@@ -1,3 +1,74 @@
-(* C01 placeholder while the theorems are being built *)
-From Coq Require Import List.
-From Indi Require Import System.Model.
+(* C01: the client's view converges to the device's true property state.
+   Statements only.  shown d g v is the client-side property that a definition of v
+   (in group g of device d) creates: name, kind, group, label, state and the enabled
+   elements with their labels and wire values (numbers as the format renders them).
+   PARTIAL: proved here are the message-level facts (every definition and every update the
+   driver publishes puts the mirror's entry in the state "shown" of the property as it then
+   is, and touches no other entry), the handshake answer and the operation-level theorem of
+   System/Ops.v where present; that a connected client receives exactly the published
+   stream (routing C04/C05, framing C02, codec C03, ordering C19) is composed in the system
+   model and validated by the system-level correspondence, not proved as one theorem.
+   REFUTED for BLOB payloads: a definition carries no payload (known finding K2). *)
+From Coq Require Import List NArith Bool String.
+Import ListNotations.
+From Indi Require Import Base.Sx Msg.Equality Driver.Model Driver.Props Client.Model Client.Props Client.Update System.Converge.
+
+Theorem a_definition_brings_the_entry_in_sync mi d g v :
+  vec_on g v = true ->
+  get_vec (mirror_of (apply mi (def_msg d g v))) (d_name d) (v_name v) = Some (shown d g v).
+Proof. exact (sync_by_definition mi d g v). Qed.
+Print Assumptions a_definition_brings_the_entry_in_sync.
+
+Theorem what_the_client_then_shows d g v :
+  vec_on g v = true -> NoDup (map e_name (v_elems v)) ->
+  shown d g v = {| cv_name := v_name v; cv_kind := v_kind v; cv_group := Some (g_name g); cv_label := Some (v_label v);
+                   cv_message := None; cv_state := v_state v;
+                   cv_elems := map celem_of (filter e_enabled (v_elems v)) |}.
+Proof. exact (shown_fields d g v). Qed.
+Print Assumptions what_the_client_then_shows.
+
+Theorem a_disabled_property_disappears mi d g v :
+  vec_on g v = false ->
+  (forall cd, dget cd_name (d_name d) mi = Some cd -> NoDup (map cv_name (cd_vecs cd))) ->
+  get_vec (mirror_of (apply mi (def_msg d g v))) (d_name d) (v_name v) = None.
+Proof. exact (sync_by_removal mi d g v). Qed.
+Print Assumptions a_disabled_property_disappears.
+
+Theorem an_update_keeps_the_entry_in_sync mi d g v v' m :
+  v_kind v <> KBlob -> same_frame v v' -> vec_on g v = true -> vec_on g v' = true ->
+  NoDup (map e_name (v_elems v)) -> Forall no_blob (v_elems v') ->
+  get_vec mi (d_name d) (v_name v) = Some (shown d g v) ->
+  set_msg d g v' = Some m ->
+  get_vec (mirror_of (apply mi m)) (d_name d) (v_name v) = Some (shown d g v').
+Proof. exact (sync_by_update mi d g v v' m). Qed.
+Print Assumptions an_update_keeps_the_entry_in_sync.
+
+(* the handshake: one definition (or delProperty) per property, each of the current state *)
+Theorem handshake_answer_covers_every_property d dn :
+  quiet d -> NoDup (map (fun gv => v_name (snd gv)) (all_vecs d)) ->
+  from_client d (getprops dn None) =
+  (d, map (fun gv => Publish (def_msg d (fst gv) (snd gv))) (all_vecs d)).
+Proof. exact (getprops_all d dn). Qed.
+Print Assumptions handshake_answer_covers_every_property.
+
+(* no message touches the entry of another property or another device *)
+Theorem a_definition_touches_no_other_entry m mg k dn dn' vn' :
+  def_kind (mk mg) = Some k -> attr_of "device" (ma mg) = Some dn ->
+  (dn' <> dn \/ vn' <> cv_name (vec_of_def k mg)) ->
+  get_vec (mirror_of (apply m mg)) dn' vn' = get_vec m dn' vn'.
+Proof. exact (def_frame m mg k dn dn' vn'). Qed.
+Print Assumptions a_definition_touches_no_other_entry.
+
+Theorem an_update_touches_no_other_entry m mg k dn dn' vn' :
+  def_kind (mk mg) = None -> set_kind (mk mg) = Some k -> attr_of "device" (ma mg) = Some dn ->
+  (dn' <> dn \/ Some vn' <> attr_of "name" (ma mg)) ->
+  get_vec (mirror_of (apply m mg)) dn' vn' = get_vec m dn' vn'.
+Proof. exact (update_frame m mg k dn dn' vn'). Qed.
+Print Assumptions an_update_touches_no_other_entry.
+
+(* the full statement is false for BLOB payloads: what a definition shows of a BLOB element is no payload,
+   whatever the device holds (known finding K2) *)
+Theorem blob_payload_is_not_shown_by_a_definition_refuted e b f :
+  e_value e = VBlob (Some (b, f)) -> ce_value (celem_of e) = CRaw None /\ ce_value (celem_of e) <> CBlob b f.
+Proof. exact (definition_shows_no_blob_payload e b f). Qed.
+Print Assumptions blob_payload_is_not_shown_by_a_definition_refuted.
